@@ -44,6 +44,16 @@ WHAT = {
  'S-C18-2': 'null_move returns early (before remove_ep) when the passer has no slider: the en-passant square survives',
  'S-C19-2': 'replace_if skips the store when the payload is equal (`e.entry != entry && replace(..)`): the hash tag is not updated',
  'S-C20-2': 'popcnt replaced by a SWAR count with a final mask of 0x3f: the full board counts 0',
+ 'S-C01-3': 'Board::legal answers from the first move-list entry of the source square only (`has_move`): a legal en-passant capture of a pawn that also has another move is rejected',
+ 'S-C02-3': 'set_ep ignores pinned capturers and the en-passant square is re-evaluated after the pin scan: a capture along the pin diagonal loses its en-passant square',
+ 'S-C03-3': 'captured-piece bookkeeping merged: the pawn direct-check term uses the captured pawn\'s square instead of the destination after an en-passant capture',
+ 'S-C05-3': 'promotion flag computed from the unpinned pawns only (pinned pawn capturing its pinner on the last rank stays a pawn)',
+ 'S-C06-3': 'board -> builder fills the castling slots from my_/their_castle_rights: swapped when Black is to move',
+ 'S-C07-3': 'is_sane reuses null_move() for the opponent-in-check test: skipped when the side to move is itself in check',
+ 'S-C08-3': 'promotion through a hand-written `promote` helper that swaps the piece boards and adds only the new piece\'s key: the pawn key stays in the hash',
+ 'S-C10-3': 'Game::make_move checks legality by destination mask + source square only: a bogus promotion field is accepted and logged',
+ 'S-C12-3': 'destination fallback branches merged: a non-capturing promotion followed by a check sign (`e8Q+`) is rejected',
+ 'S-C14-3': 'len() subtracts promotion_index inside every promotion entry instead of once',
 }
 
 
